@@ -38,6 +38,7 @@ unsigned char* vt_alloc_bytes(unsigned long n)
 }
 void vt_free_bytes(unsigned char* p) { free(p); }
 #else
+#define __CPROVER_thread_local _Thread_local
 unsigned char vt_nd_u8(void);
 unsigned short vt_nd_u16(void);
 unsigned int vt_nd_u32(void);
